@@ -578,11 +578,10 @@ func (c *Conn) SetWriteDeadline(t time.Time) error {
 		h.wtimer.Stop()
 		h.wtimer = nil
 	}
-	if !t.IsZero() {
-		d := time.Until(t)
-		if d < 0 {
-			d = 0
-		}
+	// (a deadline that has already passed needs no timer - the Broadcast below wakes the waiters; and
+	// a bubbled timer that is due immediately is run on the spot by the runtime, which crashed under
+	// the race detector)
+	if d := time.Until(t); !t.IsZero() && d > 0 {
 		h.wtimer = time.AfterFunc(d, func() {
 			h.mu.Lock()
 			h.c.Broadcast()
@@ -601,11 +600,7 @@ func (c *Conn) SetReadDeadline(t time.Time) error {
 		h.rtimer.Stop()
 		h.rtimer = nil
 	}
-	if !t.IsZero() {
-		d := time.Until(t)
-		if d < 0 {
-			d = 0
-		}
+	if d := time.Until(t); !t.IsZero() && d > 0 {
 		h.rtimer = time.AfterFunc(d, func() {
 			h.mu.Lock()
 			h.c.Broadcast()
